@@ -240,9 +240,9 @@ def coqchk(prop):
 # ------------------------------------------------------------------------------------------------
 # pipeline: programs -> implementation / model / monitors
 
-SIZES = {"quick": dict(wf=150, fault=114, free=120, known=9, chains=25, chain_exh=3, perm_bases=70, perms=3, stub_bases=40, skel=2, names=False, tiny=1),
-         "thorough": dict(wf=3000, fault=1900, free=3000, known=60, chains=300, chain_exh=6, perm_bases=500, perms=4, stub_bases=400, skel=4, names=True, tiny=2),
-         "search": dict(wf=900, fault=570, free=900, known=30, chains=60, chain_exh=4, perm_bases=150, perms=3, stub_bases=120, skel=3, names=False, tiny=1)}
+SIZES = {"quick": dict(flat=60, wf=150, fault=114, free=120, known=9, chains=25, chain_exh=3, perm_bases=70, perms=3, stub_bases=40, skel=2, names=False, tiny=1),
+         "thorough": dict(flat=800, wf=3000, fault=1900, free=3000, known=60, chains=300, chain_exh=6, perm_bases=500, perms=4, stub_bases=400, skel=4, names=True, tiny=2),
+         "search": dict(flat=250, wf=900, fault=570, free=900, known=30, chains=60, chain_exh=4, perm_bases=150, perms=3, stub_bases=120, skel=3, names=False, tiny=1)}
 
 
 def corpus_programs():
@@ -363,6 +363,14 @@ def pipeline(seed, tier):
     for p, m in gen.gen_skeletons(sz["skel"]) + (gen.gen_name_triples() if sz["names"] else []) + gen.gen_tiny(sz["tiny"]) \
             + (gen.gen_deep() if tier == "thorough" else gen.gen_deep()[:1] + gen.gen_deep()[3:4]):
         batch.append((ser(p), m))
+    # the same programs as an AST built with Ident::new has them: every identifier at (1, 0)
+    # (several-fault programs first: equal locations make equal errors)
+    nflat = 0
+    for i in sorted(range(len(batch)), key=lambda i: ({"fault2": 0, "fault": 1, "wf": 2}.get(batch[i][1].get("stream"), 9), i)):
+        if nflat >= sz["flat"] or batch[i][1].get("stream") not in ("fault2", "fault", "wf"):
+            break
+        batch.append((ser(gen.flatten_positions(parse(batch[i][0]))), {"stream": "flat", "of": i}))
+        nflat += 1
     # derived programs (C16: permutations; C17: stubbed bodies), linked to their base by index
     import random as _random
     drng = _random.Random(seed * 7 + 3)
@@ -370,10 +378,16 @@ def pipeline(seed, tier):
     n_perm = n_stub = 0
     # order-dependence and cross-body leaks show up mostly next to rejected declarations: take the
     # single-fault programs first, then the rest
-    order = sorted(range(nb), key=lambda i: (0 if batch[i][1].get("stream") == "fault" else 1, i))
+    # (fault and flat programs alternate, so that both kinds get derived programs in the quick tier)
+    rank, seen_in = {}, {}
+    for i in range(nb):
+        st = batch[i][1].get("stream")
+        seen_in[st] = seen_in.get(st, 0) + 1
+        rank[i] = seen_in[st]
+    order = sorted(range(nb), key=lambda i: ((0, rank[i]) if batch[i][1].get("stream") in ("fault", "flat") else (1, i)))
     for i in order:
         text, meta = batch[i]
-        if meta.get("stream") not in ("wf", "fault", "free", "corpus"):
+        if meta.get("stream") not in ("wf", "fault", "flat", "free", "corpus"):
             continue
         tree = None
         if n_perm < sz["perm_bases"] or n_stub < sz["stub_bases"]:
@@ -744,9 +758,9 @@ def check(prop, tier, seed):
         group = None
         if spec.get("cross"):
             # relational property: the replay needs the whole group (base program and its derived ones)
-            b = run.metas[i].get("base", i)
-            idx = [b] + [j for j, m in enumerate(run.metas) if m.get("base") == b and m.get("stream") in ("perm", "stub")]
-            group = [{"program": run.programs[j], "meta": dict(run.metas[j], base=0) if j != b else run.metas[j]} for j in idx]
+            gb = run.metas[i].get("base", i)
+            idx = [gb] + [j for j, m in enumerate(run.metas) if m.get("base") == gb and m.get("stream") in ("perm", "stub")]
+            group = [{"program": run.programs[j], "meta": dict(run.metas[j], base=0) if j != gb else run.metas[j]} for j in idx]
             small = prog
         path = write_replay(prop, "monitor alarm: " + clause, small, None, None,
                             {"original_program": prog, "meta": run.metas[i], "seed": seed, "tier": tier,
